@@ -273,9 +273,9 @@ func c16Run(out *verifkit.Out, p *c16Params) {
 	if p.scan {
 		kind = "scan"
 	}
-	scLine := fmt.Sprintf("sc kind=%s start=%d end=%d batch=%d par=%d cont=%s match=%d seed=%d preonly=%s", kind, p.start, p.end, p.batch, p.par, verifkit.B(p.cont), p.nMatch, src.Seed, verifkit.B(p.preOnly))
+	scLine := fmt.Sprintf("sc id="+p.id+" kind=%s start=%d end=%d batch=%d par=%d cont=%s match=%d seed=%d preonly=%s", kind, p.start, p.end, p.batch, p.par, verifkit.B(p.cont), p.nMatch, src.Seed, verifkit.B(p.preOnly))
 	if !p.scan {
-		scLine = fmt.Sprintf("sc kind=%s start=%d end=%d batch=%d par=%d cont=%s match=0 seed=%d", kind, p.start, p.end, p.batch, p.par, verifkit.B(p.cont), src.Seed)
+		scLine = fmt.Sprintf("sc id="+p.id+" kind=%s start=%d end=%d batch=%d par=%d cont=%s match=0 seed=%d", kind, p.start, p.end, p.batch, p.par, verifkit.B(p.cont), src.Seed)
 	} else {
 		scLine += " table=" + table
 		if p.target >= 0 {
@@ -406,6 +406,19 @@ func c16Run(out *verifkit.Out, p *c16Params) {
 		return // only when the very first GetSTH fails; nothing was delivered
 	}
 	expectEnd := finalEnd
+	if !p.cont {
+		// one-shot: the end is the requested one, clamped to the tree the (only) STH showed — independent of the code's own bookkeeping
+		want := p.end
+		if want == 0 || want > p.size0 {
+			want = p.size0
+		}
+		if finalEnd != want {
+			out.Fail("end-index "+key, fmt.Sprintf("effective end index %d, expected %d", finalEnd, want))
+		}
+		expectEnd = want
+	} else if finalEnd > c.maxSize {
+		out.Fail("end-index "+key, fmt.Sprintf("effective end index %d beyond the largest tree published (%d)", finalEnd, c.maxSize))
+	}
 	seen := map[int64]int{}
 	if !p.scan {
 		for _, d := range c.delivered {
@@ -443,9 +456,13 @@ func c16Run(out *verifkit.Out, p *c16Params) {
 	}
 	if !p.scan {
 		rangeCheck(seen, "fetch")
-		if p.cont && stopped && !cancelled && p.start <= c.maxSize {
+		if p.cont && stopped && !cancelled {
 			// a continuous fetch that was given time to catch up has everything published
-			if int64(len(seen)) != c.maxSize-p.start {
+			want := c.maxSize - p.start
+			if want < 0 {
+				want = 0
+			}
+			if int64(len(seen)) != want {
 				out.Fail("continuous-behind "+key, fmt.Sprintf("delivered %d entries, the log published [%d,%d)", len(seen), p.start, c.maxSize))
 			}
 		}
@@ -569,7 +586,9 @@ func c16Gen(r *verifkit.Rand, it int) *c16Params {
 		if r.Intn(4) == 0 {
 			p.cancelAt = at/2 + time.Duration(r.Intn(60000))*time.Millisecond + time.Millisecond
 		} else {
-			p.stopAt = at + 10*time.Minute // long enough for the 30 s (+jitter) STH polling and every retry to catch up
+			// long enough (virtual time is free) for the 30 s (+jitter) STH polling and for every request, retry and
+			// back-off of the slowest configuration (one fetcher, batch 1, every answer short, three errors each) to catch up
+			p.stopAt = at + 10*time.Minute + time.Duration(sz+1)*40*time.Second
 		}
 	} else {
 		switch r.Intn(8) {
@@ -632,11 +651,32 @@ func TestVerifC16(t *testing.T) {
 		{id: "b5", target: -1, size0: 10, start: 12, batch: 3, par: 2, nMatch: 1, seed: 6},
 		{id: "b6", target: -1, size0: 5, batch: 2, par: 2, nMatch: 1, seed: 7, cont: true, growth: []c16Growth{{time.Second, 6}, {50 * time.Second, 9}, {3 * time.Minute, 2500}}, stopAt: 20 * time.Minute, shortPct: 30},
 		{id: "b7", target: -1, scan: true, size0: 120, batch: 16, par: 4, nMatch: 8, buf: 0, seed: 8, matcher: MatchAll{}, mName: "all", shortPct: 60, errPct: 10, slowCb: true},
+		{id: "b9", target: -1, size0: 5, start: 8, batch: 2, par: 2, nMatch: 1, seed: 10, cont: true, growth: []c16Growth{{time.Second, 6}, {50 * time.Second, 9}, {3 * time.Minute, 20}}, stopAt: 20 * time.Minute},
 		{id: "b8", target: -1, scan: true, size0: 90, batch: 1000, par: 1, nMatch: 3, buf: 1000, seed: 9, matcher: CertParseFailMatcher{}, mName: "parsefail", preOnly: true},
 	}
 	for _, p := range fixed {
 		p.fseed = p.seed * 77
 		out.Count("mode:fixed")
+		c16Run(out, p)
+	}
+	// continuous scans whose start index lies beyond the tree the first STH shows (a client resuming against a
+	// lagging front end): the range is [start, ∞), so nothing below start may be delivered
+	for it := 0; it < verifkit.N(2, 6); it++ {
+		p := c16Gen(r.Fork(), it)
+		p.id = fmt.Sprintf("sb%d", it)
+		p.scan, p.cont, p.end, p.cancelAt, p.matcher, p.mName, p.target, p.preOnly = false, true, 0, 0, nil, "", -1, false
+		p.size0 = int64(r.Intn(40))
+		p.start = p.size0 + 1 + int64(r.Intn(20))
+		p.growth = nil
+		at, sz := time.Duration(0), p.size0
+		for j := 0; j < 2+r.Intn(3); j++ {
+			at += time.Duration(200+r.Intn(90000)) * time.Millisecond
+			sz += int64(1 + r.Intn(30))
+			p.growth = append(p.growth, c16Growth{at: at, size: sz})
+		}
+		p.stopAt = at + 10*time.Minute + time.Duration(sz+1)*40*time.Second
+		out.Count("mode:fetch")
+		out.Count("class:start-beyond-tree")
 		c16Run(out, p)
 	}
 	for it := 0; it < n; it++ {
